@@ -83,7 +83,7 @@ int main(int argc, char** argv) {
       if (hier) {   // neutralino/chargino sector: eigenvalues are determined to eps x (largest/smallest parameter); keep that below 3e4 (3e-12 x O(10) against the 1e-9 of the property)
          double* g3[] = {&p.mu, &p.m1, &p.m2};
          double lo = 1e300; for (double* q : g3) lo = std::min(lo, std::fabs(*q));
-         for (double* q : g3) if (std::fabs(*q) > 3e4 * lo) *q *= 3e4 * lo / std::fabs(*q);
+         for (double* q : g3) if (std::fabs(*q) > 3e4 * lo) *q *= r.U(0.1, 1) * 3e4 * lo / std::fabs(*q);   // (each with its own factor: two parameters capped to the same value would be exactly degenerate, and the couplings of a degenerate pair are not defined)
       }
       J c = p.json(); c.i("hierarchy", hier);
       try {
